@@ -5,6 +5,19 @@ ROOT = os.path.dirname(os.path.dirname(os.path.abspath(__file__)))
 ids = [json.loads(l)["id"] for l in open(os.path.join(ROOT, "properties.jsonl"))]
 
 CLAIMED = {
+ "C02": dict(
+   text="Lean 4 theorems over Model/KeyPolicy.lean (crit check, missing/allowed/registered alg, key selection by kid for KeySet objects and dict key sets, "
+        "family and curve check, check_key_op): verified_implies_policy (a key reaches signature verification only if alg is named, registered, allowed, "
+        "not none, same family/curve, the designated key, use/key_ops permit, every crit extension understood and present), none_rejected, "
+        "wrong_curve_rejected, wrong_family_rejected, kid_selects_designated_key, unknown_kid_is_error, missing_kid_many_keys_is_error, "
+        "use_keyops_honoured, crit_unknown_rejected, any_crit_rejected_by_default, and asym_text_never_hmac_key over the unsafe-prefix and marker "
+        "lists REGENERATED from oct_key.py on every run (hypothesis PemNeedsMarker about cryptography's loaders). Correspondence: alg value × allow-list × "
+        "key kind/form × kid × use/key_ops × crit matrix against real deserialize_compact / jwt.decode with tokens signed by an independent signer; "
+        "confusion cells: every PEM/SSH/certificate text form (with whitespace, BOM, comment prefixes) offered as HMAC secret, incl. an end-to-end forgery attempt.",
+   note="Trusted: Lean kernel; PemNeedsMarker is an explicit hypothesis about the primitive; JWE alg/enc/zip lookup and callable keys are not modelled (C03 / not claimed); "
+        "alg values of JSON type list/object are left to C20.",
+   technique="Lean 4 proof over hand-written policy model + regenerated data layer (registry, unsafe prefixes/markers) + differential correspondence",
+   design="§4 C02"),
  "C01": dict(
    text="Lean 4 theorems over Model/Jws.lean (compact, flattened and general JSON deserialization, per-algorithm verify with the ECDSA length guard, "
         "allow-list and registry lookup; registry regenerated from JsonWebSignature.ALGORITHMS_REGISTRY on every run): accept_implies_prim_verified "
